@@ -55,6 +55,9 @@ func runC06(c *ctx) {
 		// callees that are not plain $names: parenthesised, picked from an array, chosen by a conditional
 		"a.(($substringBefore)(\"z\"))", "a.([$substringBefore][0](\"z\"))", "a.((n > 0 ? $substringBefore : $substringAfter)(\"z\"))", "b.c.(($pad)(9, \"-\"))", "a.(($length)())",
 		"($f := $substringBefore; a.$f(\"z\"))", "a.($substringBefore ~> $uppercase)(\"z\")",
+		"$map([a, b.c, s], $pad(?, 14))", "[a, b.c] ~> $join", "[s, a] ~> $join ~> $length", "$map([a, s], $split(?, \"z\"))", "($f := $trim ~> $split(?, \"y\"); $map([a, s], $f))",
+		"$map([a, b.c], $substring(?, 1))", "$map([n, n + 1], $round)", "$map([n, 255], $formatBase)", "$filter([a, b.c, s], $contains(?, \"z\"))", "a ~> $uppercase ~> $pad(?, 12)",
+		"$map([a, b.c], $substringBefore(?, \"z\"))", "[n, 3, 1] ~> $sort", "$map([n * 1000000], $fromMillis)", "$map([a], $replace(?, \"y\", \"-\"))", "[a, s] ~> $map($length)",
 		"$map([1,2,3], $string)", "$filter(items, function($v){$v.id > n}).id", "$each(b, function($v, $k){$k & $v})",
 	}
 	// resource use that adds up across goroutines: bounded recursion (32 goroutines x depth 60 is far more nesting than any
